@@ -38,8 +38,13 @@ VARIABLES i,        \* next line
           stored,   \* last salt written to the session store (rank; 0 = none)
           alive, judgeAcks,
           updates,  \* well-formed update objects pushed by the server and not yet surfaced (handler / warning)
+          keyHeld,  \* the client holds an auth key (it connected, or started on a stored session)
+          home,     \* data centre the requests belong to: 1, or 2 after the server answered PHONE_MIGRATE_2
+          storedHome, \* data centre of the address in the session store (a restarted client starts there)
+          srvNow,   \* the server's current salt (rank)
+          resumed,  \* the application has just started again: its first request shows which salt it resumed with
           bad
-vars == <<i, sc, lastId, lastSeq, open, frames, ans, toAck, sentIds, resend, wantSalt, stored, alive, judgeAcks, updates, bad>>
+vars == <<i, sc, lastId, lastSeq, open, frames, ans, toAck, sentIds, resend, wantSalt, stored, alive, judgeAcks, updates, keyHeld, home, storedHome, srvNow, resumed, bad>>
 
 Has(f, k) == k \in DOMAIN f
 Ev == Trace[i]
@@ -51,25 +56,25 @@ SelectKinds(conds) == \* conds: sequence of <<BOOLEAN, kind>>; the kinds whose c
 
 Init == /\ i = 1 /\ sc = 0 /\ lastId = 0 /\ lastSeq = 0 /\ open = <<>> /\ frames = <<>> /\ ans = <<>>
         /\ toAck = {} /\ sentIds = {} /\ resend = {} /\ wantSalt = 0 /\ stored = 0 /\ alive = TRUE /\ judgeAcks = TRUE
-        /\ updates = 0 /\ bad = <<>>
+        /\ updates = 0 /\ keyHeld = FALSE /\ home = 1 /\ storedHome = 1 /\ srvNow = 0 /\ resumed = FALSE /\ bad = <<>>
 
 Reset == /\ Is("Reset") /\ sc' = Ev.sc
          /\ lastId' = 0 /\ lastSeq' = 0 /\ open' = <<>> /\ frames' = <<>> /\ ans' = <<>> /\ toAck' = {} /\ sentIds' = {}
-         /\ resend' = {} /\ wantSalt' = 0 /\ stored' = 0 /\ alive' = TRUE /\ judgeAcks' = TRUE /\ updates' = 0 /\ UNCHANGED bad
+         /\ resend' = {} /\ wantSalt' = 0 /\ stored' = 0 /\ alive' = TRUE /\ judgeAcks' = TRUE /\ updates' = 0 /\ keyHeld' = FALSE /\ home' = 1 /\ storedHome' = 1 /\ srvNow' = 0 /\ resumed' = FALSE /\ UNCHANGED bad
 
 Call == /\ Is("Call")
         /\ open' = (Ev.c :> [tag |-> Ev.tag, kind |-> Ev.kind]) @@ open
         /\ bad' = IF Has(open, Ev.c) THEN Note("harness:call-while-open") ELSE bad
-        /\ UNCHANGED <<sc, lastId, lastSeq, frames, ans, toAck, sentIds, resend, wantSalt, stored, alive, judgeAcks, updates>>
+        /\ UNCHANGED <<srvNow, resumed, keyHeld, home, storedHome, sc, lastId, lastSeq, frames, ans, toAck, sentIds, resend, wantSalt, stored, alive, judgeAcks, updates>>
 
 (* ---- frames the server received ---- *)
 IdChecks(t, content) == SelectKinds(<<
    <<t.mod4 # 0, "msgid-not-multiple-of-4">>,
    <<~t.clock, "msgid-not-from-clock">>,
-   <<t.id <= lastId, "msgid-not-increasing">>,
+   <<~t.first /\ t.id <= lastId, "msgid-not-increasing">>,
    <<content /\ t.seq % 2 = 0, "seqno-even-for-content">>,
    <<~content /\ t.seq % 2 = 1, "seqno-odd-for-ack">>,
-   <<t.seq < lastSeq, "seqno-decreasing">> >>)
+   <<~t.first /\ t.seq < lastSeq, "seqno-decreasing">> >>)
 Track(t) == /\ lastId' = IF t.id > lastId THEN t.id ELSE lastId
             /\ lastSeq' = t.seq
 
@@ -84,11 +89,14 @@ WireReq ==
      IN /\ bad' = Notes(IdChecks(t, TRUE) \o SelectKinds(<<
                      <<~TagOpen(t.tag), "request-nobody-asked-for">>,
                      <<dupl, "accepted-request-resent">>,
-                     <<Has(frames, t.id), "msgid-reused">> >>))
+                     <<Has(frames, t.id), "msgid-reused">>,
+                     <<home = 2 /\ t.conn < 1000, "request-sent-to-the-old-data-centre">>,
+                     \* the store held the server's current salt when the application started again: it is the one to use
+                     <<resumed /\ stored # 0 /\ stored = srvNow /\ ~t.saltok, "resumed-without-the-stored-salt">> >>))
         /\ frames' = (t.id :> [tag |-> t.tag, st |-> IF t.saltok THEN "accepted" ELSE "rejected"]) @@ frames
         /\ resend' = IF t.saltok THEN resend \ {t.tag} ELSE resend \cup {t.tag}
         /\ Track(t)
-  /\ UNCHANGED <<sc, open, ans, toAck, sentIds, wantSalt, stored, alive, judgeAcks, updates>>
+  /\ resumed' = FALSE /\ UNCHANGED <<srvNow, keyHeld, home, storedHome, sc, open, ans, toAck, sentIds, wantSalt, stored, alive, judgeAcks, updates>>
 
 WireAck ==
   /\ Is("Wire") /\ Ev.kind = "ack"
@@ -97,18 +105,18 @@ WireAck ==
      IN /\ bad' = Notes(IdChecks(t, FALSE) \o SelectKinds(<< <<~(ids \subseteq sentIds), "ack-of-unknown-id">> >>))
         /\ toAck' = toAck \ ids
         /\ Track(t)
-  /\ UNCHANGED <<sc, open, frames, ans, sentIds, resend, wantSalt, stored, alive, judgeAcks, updates>>
+  /\ UNCHANGED <<srvNow, resumed, keyHeld, home, storedHome, sc, open, frames, ans, sentIds, resend, wantSalt, stored, alive, judgeAcks, updates>>
 
 WireOther ==
   /\ Is("Wire") /\ Ev.kind \in {"ping", "other"}
   /\ bad' = Notes(IdChecks(Ev, TRUE))
   /\ Track(Ev)
-  /\ UNCHANGED <<sc, open, frames, ans, toAck, sentIds, resend, wantSalt, stored, alive, judgeAcks, updates>>
+  /\ UNCHANGED <<srvNow, resumed, keyHeld, home, storedHome, sc, open, frames, ans, toAck, sentIds, resend, wantSalt, stored, alive, judgeAcks, updates>>
 
 WireUnreadable ==
   /\ Is("Wire") /\ Ev.kind = "unreadable"
   /\ bad' = Note("frame-server-cannot-open")
-  /\ UNCHANGED <<sc, lastId, lastSeq, open, frames, ans, toAck, sentIds, resend, wantSalt, stored, alive, judgeAcks, updates>>
+  /\ UNCHANGED <<srvNow, resumed, keyHeld, home, storedHome, sc, lastId, lastSeq, open, frames, ans, toAck, sentIds, resend, wantSalt, stored, alive, judgeAcks, updates>>
 
 (* ---- what the server sent ---- *)
 \* the one error that is handled, not returned: PHONE_MIGRATE_<number>; without a number it is an error like any other
@@ -140,21 +148,23 @@ SrvSend ==
         /\ judgeAcks' = (judgeAcks /\ ~(t.t = "push" /\ t.what \in Unreadable)
                                    /\ ~(\E k \in 1..Len(items) : items[k].what \in Unreadable))
         /\ updates' = IF t.t = "push" /\ t.what \in {"api_object", "update_short", "gzip_update"} THEN updates + 1 ELSE updates
-  /\ UNCHANGED <<sc, lastId, lastSeq, open, stored, alive, bad>>
+        \* PHONE_MIGRATE_2: from now on the requests belong to the second data centre
+        /\ home' = IF \E k \in 1..Len(items) : IsMigrate(items[k].val) THEN 2 ELSE home
+  /\ UNCHANGED <<sc, lastId, lastSeq, open, stored, alive, keyHeld, storedHome, srvNow, resumed, bad>>
 
-Rotate == Is("Rotate") /\ UNCHANGED <<sc, lastId, lastSeq, open, frames, ans, toAck, sentIds, resend, wantSalt, stored, alive, judgeAcks, updates, bad>>
+Rotate == Is("Rotate") /\ srvNow' = Ev.salt /\ UNCHANGED <<resumed, keyHeld, home, storedHome, sc, lastId, lastSeq, open, frames, ans, toAck, sentIds, resend, wantSalt, stored, alive, judgeAcks, updates, bad>>
 SrvClose == Is("SrvClose") /\ judgeAcks' = FALSE
-            /\ UNCHANGED <<sc, lastId, lastSeq, open, frames, ans, toAck, sentIds, resend, wantSalt, stored, alive, updates, bad>>
+            /\ UNCHANGED <<srvNow, resumed, keyHeld, home, storedHome, sc, lastId, lastSeq, open, frames, ans, toAck, sentIds, resend, wantSalt, stored, alive, updates, bad>>
 
 ConnOpen ==
   /\ Is("ConnOpen")
   \* after the first connection of a scenario the client holds a key: a later connection must not
   \* start a key exchange (plain-text first frame)
   /\ bad' = IF Ev.n > 1 /\ Ev.first = "plain" THEN Note("reconnect-with-key-exchange") ELSE bad
-  /\ UNCHANGED <<sc, lastId, lastSeq, open, frames, ans, toAck, sentIds, resend, wantSalt, stored, alive, judgeAcks, updates>>
+  /\ UNCHANGED <<srvNow, resumed, keyHeld, home, storedHome, sc, lastId, lastSeq, open, frames, ans, toAck, sentIds, resend, wantSalt, stored, alive, judgeAcks, updates>>
 
-Stored == Is("Stored") /\ stored' = Ev.salt
-          /\ UNCHANGED <<sc, lastId, lastSeq, open, frames, ans, toAck, sentIds, resend, wantSalt, alive, judgeAcks, updates, bad>>
+Stored == Is("Stored") /\ stored' = Ev.salt /\ storedHome' = Ev.home
+          /\ UNCHANGED <<srvNow, resumed, keyHeld, home, sc, lastId, lastSeq, open, frames, ans, toAck, sentIds, resend, wantSalt, alive, judgeAcks, updates, bad>>
 
 (* ---- results reaching callers ---- *)
 SameVal(a, b) == a.kind = b.kind /\ a.v = b.v /\ a.code = b.code /\ a.msg = b.msg /\ a.param = b.param
@@ -176,19 +186,39 @@ Return ==
                                         ELSE IF mine # {} THEN "result-differs-from-answer"
                                         ELSE IF \E id \in FramesOf(open[t.c].tag) : frames[id].st = "returned" THEN "result-delivered-twice"
                                         ELSE "result-without-answer")
-  /\ UNCHANGED <<sc, lastId, lastSeq, ans, toAck, sentIds, resend, wantSalt, stored, alive, judgeAcks, updates>>
+  /\ UNCHANGED <<srvNow, resumed, keyHeld, home, storedHome, sc, lastId, lastSeq, ans, toAck, sentIds, resend, wantSalt, stored, alive, judgeAcks, updates>>
+
+\* the client holds a key: after a key exchange, or from the start when the store held a session
+GotKey == /\ Is("Connected") /\ keyHeld' = TRUE
+          /\ UNCHANGED <<sc, lastId, lastSeq, open, frames, ans, toAck, sentIds, resend, wantSalt, stored, alive, judgeAcks, updates, home, storedHome, srvNow, resumed, bad>>
+\* the store holds a session from the start: the key, and the server's current salt
+Prefilled == /\ Is("Prefilled") /\ keyHeld' = TRUE /\ stored' = Ev.salt /\ srvNow' = Ev.salt
+             /\ UNCHANGED <<sc, lastId, lastSeq, open, frames, ans, toAck, sentIds, resend, wantSalt, alive, judgeAcks, updates, home, storedHome, resumed, bad>>
+\* end of a key exchange on the server's side: the salt both sides derived
+HSDone == /\ Is("HSDone") /\ srvNow' = Ev.salt
+          /\ UNCHANGED <<sc, lastId, lastSeq, open, frames, ans, toAck, sentIds, resend, wantSalt, stored, alive, judgeAcks, updates, keyHeld, home, storedHome, resumed, bad>>
+\* a plain-text (key exchange) message reached a server although the client holds a key
+PlainSeen == /\ Is("Plain")
+             /\ bad' = IF keyHeld THEN Note("key-exchange-with-key-held") ELSE bad
+             /\ UNCHANGED <<sc, lastId, lastSeq, open, frames, ans, toAck, sentIds, resend, wantSalt, stored, alive, judgeAcks, updates, keyHeld, home, storedHome, srvNow, resumed>>
+\* the application stopped and started again on the same session store: a new session (seq_no starts again),
+\* the same key, no call in progress
+Restarted == /\ Is("Restarted") /\ lastSeq' = 0 /\ home' = storedHome /\ resumed' = TRUE
+             /\ toAck' = {}          \* what was not acknowledged when the application stopped stays so
+             /\ open' = <<>> /\ UNCHANGED bad  \* a call still open was reported when it timed out; it ends with the application
+             /\ UNCHANGED <<sc, lastId, frames, ans, sentIds, resend, wantSalt, stored, alive, judgeAcks, updates, keyHeld, storedHome, srvNow>>
 
 \* an update object reached the registered handler (or, without one, the warning channel)
 Surfaced == /\ Is("Update") /\ updates' = IF updates > 0 THEN updates - 1 ELSE 0
-            /\ UNCHANGED <<sc, lastId, lastSeq, open, frames, ans, toAck, sentIds, resend, wantSalt, stored, alive, judgeAcks, bad>>
+            /\ UNCHANGED <<srvNow, resumed, keyHeld, home, storedHome, sc, lastId, lastSeq, open, frames, ans, toAck, sentIds, resend, wantSalt, stored, alive, judgeAcks, bad>>
 
 Timeout == /\ Is("Timeout")
            /\ bad' = Note(IF Ev.waiting = "CreateConnection" THEN "connect-never-returned" ELSE "call-never-returned")
-           /\ UNCHANGED <<sc, lastId, lastSeq, open, frames, ans, toAck, sentIds, resend, wantSalt, stored, alive, judgeAcks, updates>>
+           /\ UNCHANGED <<srvNow, resumed, keyHeld, home, storedHome, sc, lastId, lastSeq, open, frames, ans, toAck, sentIds, resend, wantSalt, stored, alive, judgeAcks, updates>>
 Dead == /\ Is("Dead") /\ alive' = FALSE /\ bad' = Note("process-died")
-        /\ UNCHANGED <<sc, lastId, lastSeq, open, frames, ans, toAck, sentIds, resend, wantSalt, stored, judgeAcks, updates>>
+        /\ UNCHANGED <<srvNow, resumed, keyHeld, home, storedHome, sc, lastId, lastSeq, open, frames, ans, toAck, sentIds, resend, wantSalt, stored, judgeAcks, updates>>
 ConnectError == /\ Is("ConnectError") /\ bad' = Note("connect-failed")
-                /\ UNCHANGED <<sc, lastId, lastSeq, open, frames, ans, toAck, sentIds, resend, wantSalt, stored, alive, judgeAcks, updates>>
+                /\ UNCHANGED <<srvNow, resumed, keyHeld, home, storedHome, sc, lastId, lastSeq, open, frames, ans, toAck, sentIds, resend, wantSalt, stored, alive, judgeAcks, updates>>
 
 \* quiescence: every call returned (else a Timeout was logged), everything acknowledged, every
 \* rejected request sent again, the adopted salt persisted
@@ -199,18 +229,18 @@ End ==
         <<resend # {}, "rejected-request-not-resent">>,
         <<wantSalt # 0 /\ stored # wantSalt, "salt-not-persisted">>,
         <<Ev.surface /\ updates > 0, "update-not-surfaced">> >>))
-  /\ UNCHANGED <<sc, lastId, lastSeq, open, frames, ans, toAck, sentIds, resend, wantSalt, stored, alive, judgeAcks, updates>>
+  /\ UNCHANGED <<srvNow, resumed, keyHeld, home, storedHome, sc, lastId, lastSeq, open, frames, ans, toAck, sentIds, resend, wantSalt, stored, alive, judgeAcks, updates>>
 
-Skip == /\ i <= Len(Trace) /\ Ev.e \in {"Start", "Prefilled", "Connected", "Gate", "Plain", "HSDone", "ConnClose", "Warn", "Note", "FinalStore"}
+Skip == /\ i <= Len(Trace) /\ Ev.e \in {"Start", "Gate", "ConnClose", "Warn", "Note", "FinalStore"}
         /\ i' = i + 1
-        /\ UNCHANGED <<sc, lastId, lastSeq, open, frames, ans, toAck, sentIds, resend, wantSalt, stored, alive, judgeAcks, updates, bad>>
+        /\ UNCHANGED <<srvNow, resumed, keyHeld, home, storedHome, sc, lastId, lastSeq, open, frames, ans, toAck, sentIds, resend, wantSalt, stored, alive, judgeAcks, updates, bad>>
 
 Finish == /\ i = Len(Trace) + 1 /\ i' = i + 1
           /\ ndJsonSerialize(IOEnv.VERIF_OUT, bad)
-          /\ UNCHANGED <<sc, lastId, lastSeq, open, frames, ans, toAck, sentIds, resend, wantSalt, stored, alive, judgeAcks, updates, bad>>
+          /\ UNCHANGED <<srvNow, resumed, keyHeld, home, storedHome, sc, lastId, lastSeq, open, frames, ans, toAck, sentIds, resend, wantSalt, stored, alive, judgeAcks, updates, bad>>
 
 Next == Reset \/ Call \/ WireReq \/ WireAck \/ WireOther \/ WireUnreadable \/ SrvSend \/ Rotate \/ SrvClose \/ ConnOpen
-        \/ Stored \/ Return \/ Surfaced \/ Timeout \/ Dead \/ ConnectError \/ End \/ Skip \/ Finish
+        \/ GotKey \/ Prefilled \/ HSDone \/ PlainSeen \/ Restarted \/ Stored \/ Return \/ Surfaced \/ Timeout \/ Dead \/ ConnectError \/ End \/ Skip \/ Finish
 Spec == Init /\ [][Next]_vars
 TraceAccepted == TLCGet("stats").diameter = Len(Trace) + 2
 =============================================================================
